@@ -186,7 +186,8 @@ func runC18(c *Ctx) {
 			c.Pred("verify", "signer-name-lookalike-rejected", "key owner "+hxs(nm)+" "+in, verify(out, look) != "ok", "ok", "err", true)
 		}
 		// outside the validity window
-		for _, w := range [][2]uint32{{now + 100, now + 300}, {now - 300, now - 100}, {now + 0x80000100, now + 0x80000200}, {now + 300, now - 300}} {
+		for _, w := range [][2]uint32{{now + 100, now + 300}, {now - 300, now - 100}, {now + 0x80000100, now + 0x80000200}, {now + 300, now - 300},
+			{now - 300, now - 600}, {now + 600, now + 300}, {0xFFFFFFFF, now - 1}} { // the last three: inverted windows, both ends on one side of now
 			s := mk(alg, key.KeyTag())
 			s.Inception, s.Expiration = w[0], w[1]
 			o2, err := s.Sign(k.signer, m.Copy())
@@ -261,6 +262,47 @@ func runC18(c *Ctx) {
 		}
 	}
 	_ = crypto.SHA1
+	// a message far beyond 64 KiB uncompressed that compression brings well below it: it can be signed, and verifies
+	{
+		k := keys[dns.ED25519]
+		key := keyRRFrom(k.key)
+		for _, nrec := range []int{1500, 3000} {
+			m := new(dns.Msg)
+			m.SetQuestion("big.example.", dns.TypeA)
+			m.Response = true
+			m.Compress = true
+			for j := 0; j < nrec; j++ {
+				m.Answer = append(m.Answer, &dns.A{Hdr: dns.RR_Header{Name: "a-rather-long-owner-name-shared-by-all.records.big.example.", Rrtype: dns.TypeA, Class: 1, Ttl: 1}, A: []byte{10, 1, byte(j >> 8), byte(j)}})
+			}
+			s := new(dns.SIG)
+			s.Algorithm, s.KeyTag, s.SignerName = dns.ED25519, key.KeyTag(), "signer.example."
+			s.Inception, s.Expiration = now-300, now+300
+			packed, perr := m.Copy().Pack()
+			in := fmt.Sprintf("%d A records under one owner, compress=true, uncompressed Len %d, packed %d", nrec, func() int { c2 := m.Copy(); c2.Compress = false; return c2.Len() }(), len(packed))
+			if perr != nil || len(packed) > 60000 {
+				continue
+			}
+			out, err := s.Sign(k.signer, m.Copy())
+			res := "sign: " + fmt.Sprint(err)
+			if err == nil {
+				res = guard(func() string {
+					var mm dns.Msg
+					if e := mm.Unpack(out); e != nil || len(mm.Extra) == 0 {
+						return "signed message does not decode"
+					}
+					sg, ok := mm.Extra[len(mm.Extra)-1].(*dns.SIG)
+					if !ok {
+						return "no SIG record"
+					}
+					if e := sg.Verify(key, out); e != nil {
+						return "verify: " + e.Error()
+					}
+					return "ok"
+				})
+			}
+			c.Pred("big-compressible", "large-compressible-message-signs", in, res == "ok", res, "ok", true)
+		}
+	}
 	// RSA keys of every supported modulus size up to the 4096-bit maximum (fixed keys, rsakeys.go): SIG(0) made with the
 	// private key verifies with the KEY built from the public key
 	for _, bits := range []int{1024, 2048, 3072, 4096} {
